@@ -38,10 +38,11 @@ type runStats struct {
 	probes                 [32]int
 	sched                  core.SchedStats
 	executed               int
-	feat                   uint64 // distinctness signature (0 = trivial)
-	pairs                  int    // C12: state pairs compared
-	invChecked, invSkipped int    // C06: ticks with a full invariant evaluation / skipped as unchanged
-	other                  bool   // twin oracles: the failure is not attributable to this property
+	feat                   uint64        // distinctness signature (0 = trivial)
+	pairs                  int           // C12: state pairs compared
+	invChecked, invSkipped int           // C06: ticks with a full invariant evaluation / skipped as unchanged
+	verdict                *core.Verdict // the comparison behind a mismatch class (nil otherwise)
+	other                  bool          // twin oracles: the failure is not attributable to this property
 }
 
 type check struct {
@@ -291,7 +292,7 @@ func (w *check) Run(b api.Batch) *api.Result {
 				continue
 			}
 			// a violation: known finding?
-			if id := matchTrigger(w.id, kf, cs, class); id != "" {
+			if id := matchTrigger(w.id, kf, cs, class, st.verdict); id != "" {
 				res.Count("in_known_finding_region_failing:"+id+":"+v.String(), 1)
 				res.Violations = append(res.Violations, api.Violation{Property: w.id, Class: class, Detail: detail, RunIndex: idx, Seed: b.Seed, KnownFinding: id})
 				continue
@@ -302,8 +303,8 @@ func (w *check) Run(b api.Batch) *api.Result {
 			if minimised[key] < 2 {
 				minimised[key]++
 				chk := func(c *core.Case) string {
-					cl, _, _ := w.judge(w, c)
-					if cl == class && matchTrigger(w.id, kf, c, cl) != "" {
+					cl, _, cst := w.judge(w, c)
+					if cl == class && matchTrigger(w.id, kf, c, cl, cst.verdict) != "" {
 						return "" // do not shrink into a known-finding region
 					}
 					return cl
@@ -399,5 +400,6 @@ func judgeRef(w *check, c *core.Case) (string, string, runStats) {
 	st := statsOf(out, ss, ref)
 	st.feat = traceSig(c.Prog, ref)
 	v := core.Compare(ref, out)
+	st.verdict = &v
 	return v.Class, v.Detail, st
 }
